@@ -304,6 +304,31 @@ def order_battery() -> list:
     return out
 
 
+def state_battery() -> list:
+    """order_battery() plus the calls that BUILD something with names or counters (grammars): all ordered pairs (a, b) of this
+    list are served by one process each -- a first, then b -- and b must answer as in a pristine process."""
+    out = order_battery()
+
+    def add(api, text, schema, **kw):
+        out.append({"id": 920000 + len(out), "api": api, "doc_kind": "battery", "text": text, "schema": schema, **kw})
+
+    contract = ('===SESSION===\nMETA:\n  TYPE::SESSION_LOG\n  VERSION::"1.0"\n  CONTRACT::["FIELD[STATUS]::REQ∧ENUM[ACTIVE,PAUSED,COMPLETE]",'
+                '"FIELD[Status]::OPT∧ENUM[on,off]","FIELD[A_B]::OPT","FIELD[A-B]::OPT","FIELD[SCORE]::OPT∧TYPE[NUMBER]∧RANGE[0,10]",'
+                '"FIELD[OWNER]::REQ∧REGEX[\\"^[a-z]+$\\"]"]\nMARK::b\nSTATUS::ACTIVE\n===END===\n')
+    for schema in ("GEN_A", "GEN_B", "GEN_C", "META", "SKILL"):
+        add("tool.compile_grammar", None, schema, args={"format": "gbnf"}, route="schema")
+    add("tool.compile_grammar", contract, "META", args={"format": "gbnf"}, route="content")
+    add("tool.compile_grammar", contract, "META", args={"format": "json_schema"}, route="content")
+    for schema in ("GEN_A", "GEN_B", "GEN_C"):
+        add("py.gbnf_schema", "", schema)
+    add("py.gbnf_meta", contract, "META")
+    add("tool.validate", contract, "META", args={"grammar_hint": True, "debug_grammar": True})
+    add("tool.eject", contract, "META", args={"mode": "canonical", "format": "gbnf"})
+    add("py.load_schema", "", "GEN_A")
+    add("py.seal", contract, "META")
+    return out
+
+
 # ---- pool generation ---------------------------------------------------------------------------------------------
 
 
